@@ -11,12 +11,15 @@ import (
 
 // CFG wraps a go/cfg graph of one function body with node locations.
 type CFG struct {
-	F     *Func
-	G     *cfg.CFG
-	loc   map[ast.Node]Loc
-	conds map[ast.Expr]ast.Expr // condition expr -> switch tag (nil for if/for/tagless case)
-	isCnd map[ast.Expr]bool
-	preds map[*cfg.Block][]*cfg.Block
+	F    *Func
+	G    *cfg.CFG
+	loc  map[ast.Node]Loc
+	more map[ast.Node][]Loc // further locations of nodes that stand in several blocks
+	// siteOf: blocks of a spliced helper -> the call they were spliced in for
+	siteOf map[*cfg.Block]inlineSite
+	conds  map[ast.Expr]ast.Expr // condition expr -> switch tag (nil for if/for/tagless case)
+	isCnd  map[ast.Expr]bool
+	preds  map[*cfg.Block][]*cfg.Block
 }
 
 // Loc is a position in the CFG: node I of block B.  I == -1 denotes the start of the
@@ -45,10 +48,15 @@ func (f *Func) CFG() *CFG {
 	}
 	g := cfg.New(f.Body, mayReturn)
 	bodies := []ast.Node{f.Body}
-	for _, h := range f.spliceInlined(g, mayReturn, 0) {
-		bodies = append(bodies, h.Body)
+	siteOf := map[*cfg.Block]inlineSite{}
+	seenBody := map[*Func]bool{}
+	for _, h := range f.spliceInlined(g, mayReturn, 0, siteOf) {
+		if !seenBody[h] {
+			seenBody[h] = true
+			bodies = append(bodies, h.Body)
+		}
 	}
-	c := &CFG{F: f, G: g, loc: map[ast.Node]Loc{}, conds: map[ast.Expr]ast.Expr{}, isCnd: map[ast.Expr]bool{},
+	c := &CFG{F: f, G: g, siteOf: siteOf, loc: map[ast.Node]Loc{}, conds: map[ast.Expr]ast.Expr{}, isCnd: map[ast.Expr]bool{},
 		preds: map[*cfg.Block][]*cfg.Block{}}
 	// condition expressions
 	for _, body := range bodies {
@@ -83,8 +91,13 @@ func (f *Func) CFG() *CFG {
 		for i, n := range b.Nodes {
 			loc := Loc{b, i}
 			walkOwn(n, func(x ast.Node) bool {
-				if _, dup := c.loc[x]; !dup {
+				if first, dup := c.loc[x]; !dup {
 					c.loc[x] = loc
+				} else if first != loc {
+					if c.more == nil {
+						c.more = map[ast.Node][]Loc{}
+					}
+					c.more[x] = append(c.more[x], loc)
 				}
 				return true
 			})
@@ -137,6 +150,25 @@ func (c *CFG) LocOf(n ast.Node) Loc {
 		}
 	}
 	return Loc{}
+}
+
+// LocsOf returns every location of a node (more than one only for nodes of helpers spliced in several times).
+func (c *CFG) LocsOf(n ast.Node) []Loc {
+	l := c.LocOf(n)
+	if !l.Valid() {
+		return nil
+	}
+	out := []Loc{l}
+	for x := n; x != nil; x = c.F.P.parents[x] {
+		if m, ok := c.more[x]; ok {
+			out = append(out, m...)
+			break
+		}
+		if _, ok := c.loc[x]; ok {
+			break
+		}
+	}
+	return out
 }
 
 // Live reports whether the node is in a reachable block.
@@ -278,10 +310,25 @@ func (c *CFG) ReachBlocks(from Loc, opt ReachOpt) map[*cfg.Block]bool {
 // LocSet builds a membership predicate.
 func LocSet(ls ...Loc) func(Loc) bool {
 	m := map[Loc]bool{}
+	// a node that stands in several blocks (the body of a helper spliced in at each of its
+	// calls, a deferred call run at each return of a spliced helper) is the same location
+	// wherever it stands
+	nodes := map[ast.Node]bool{}
 	for _, l := range ls {
 		m[l] = true
+		if l.B != nil && l.I >= 0 && l.I < len(l.B.Nodes) {
+			nodes[l.B.Nodes[l.I]] = true
+		}
 	}
-	return func(l Loc) bool { return m[l] }
+	return func(l Loc) bool {
+		if m[l] {
+			return true
+		}
+		if l.B != nil && l.I >= 0 && l.I < len(l.B.Nodes) {
+			return nodes[l.B.Nodes[l.I]]
+		}
+		return false
+	}
 }
 
 // DescribePath renders a witness path.
@@ -479,7 +526,46 @@ func (c *CFG) GuardedFrom(from, target Loc, pred func(Fact) bool) (bool, *Guard)
 	if !target.Valid() {
 		return false, nil
 	}
-	toT := LocSet(target)
+	var first *Guard
+	for _, t := range c.Clones(target) {
+		ok, g := c.guardedFromExact(from, t, pred)
+		if !ok {
+			return false, nil
+		}
+		if first == nil {
+			first = g
+		}
+	}
+	return true, first
+}
+
+// exactLoc accepts exactly one location (LocSet also accepts the other standing places of its node).
+func exactLoc(t Loc) func(Loc) bool { return func(l Loc) bool { return l == t } }
+
+// Clones returns the locations at which the node of target stands: target itself, plus its
+// copies when it belongs to a helper spliced in at several calls (or is a deferred call of a
+// spliced helper run at several returns).
+func (c *CFG) Clones(target Loc) []Loc {
+	out := []Loc{target}
+	if len(c.more) == 0 || target.B == nil || target.I < 0 || target.I >= len(target.B.Nodes) {
+		return out
+	}
+	n := target.B.Nodes[target.I]
+	for _, b := range c.G.Blocks {
+		if !b.Live {
+			continue
+		}
+		for i, x := range b.Nodes {
+			if x == n && (b != target.B || i != target.I) {
+				out = append(out, Loc{b, i})
+			}
+		}
+	}
+	return out
+}
+
+func (c *CFG) guardedFromExact(from, target Loc, pred func(Fact) bool) (bool, *Guard) {
+	toT := exactLoc(target)
 	for _, b := range c.G.Blocks {
 		if !b.Live || c.Cond(b) == nil {
 			continue
